@@ -489,5 +489,6 @@ MUTANTS = [
     M("numeric-fill-round-alpha", CM, "BaseImage._get_render_data", '"RGBA", img.size, get_fg_bg_colors(hex=True)[1] or "#000000"\n', '"RGBA", img.size, get_fg_bg_colors(hex=True)[1] or (0, 0, 0, 0)\n', {"R4"}),
     M("draft-the-source", CM, "BaseImage._get_render_data", "        if not size:\n            size = self._get_render_size()\n", "        if not size:\n            size = self._get_render_size()\n        img.draft(None, size)\n", {"R4"}),
     M("two-step-reduction", CM, "BaseImage._get_render_data", "img = img.resize(size, Image.Resampling.BOX)", "img = img.resize(size, Image.Resampling.BOX, reducing_gap=2.0)", {"R4"}),
+    M("resize-planes-apart", CM, "BaseImage._get_render_data", "img = img.resize(size, Image.Resampling.BOX)", "img = img.convert(\"RGB\").resize(size, Image.Resampling.BOX)", {"R4"}),
     M("twin-reorder-disjuncts", BL, "BlockImage._render_image", "                    px1 != cluster1\n                    or px2 != cluster2\n", "                    px2 != cluster2\n                    or px1 != cluster1\n", twin=True),
 ]
